@@ -48,6 +48,15 @@ BOOLEAN_OPS = {'==', '!=', 'is', 'isnot', 'in', 'notin', '<', '<=', '>', '>=',
                'bool', 'truth', 'any', 'all'}
 
 
+def _const_tuple(a):
+    """python tuple of a constant tuple term (None: not one)"""
+    if a[0] == 'const' and isinstance(a[1], tuple):
+        return a[1]
+    if a[0] == 'tuple' and all(x[0] == 'const' for x in a[1]):
+        return tuple(x[1] for x in a[1])
+    return None
+
+
 def is_boolean(t):
     """the term can only be True or False"""
     return (t[0] == 'op' and t[1] in BOOLEAN_OPS) or (
@@ -790,6 +799,10 @@ class PathSum(object):
             elif not is_const(b) and repr(struct(a)) > repr(struct(b)):
                 t = ('op', t[1], (b, a))
             # x == True / x is True on something boolean stays as is
+        if t[0] == 'op' and t[1] == 'bool' and len(t[2]) == 1:
+            # bool(x) is the truth of x
+            a, p2 = self.atom(t[2][0])
+            return a, (pol if p2 else not pol)
         if t[0] != 'op' or t[1] not in ('==', 'is', 'in', '<', '<=', 'truth',
                                         'isinstance', 'hasattr', 'callable',
                                         'issubclass'):
@@ -1447,8 +1460,50 @@ class PathSum(object):
     @staticmethod
     def _table_lookup(b, k):
         return b[0] == 'dict' and 0 < len(b[1]) <= 24 and all(
-            is_const(a) for a, _ in b[1]) and not is_const(k) and \
-            k is not BOT
+            is_const(a) or _const_tuple(a) is not None
+            for a, _ in b[1]) and not is_const(k) and k is not BOT
+
+    def lookup_rows(self, rows, comps, i, st, node):
+        """Decision tree over the components of a tuple key: a boolean
+        component is one truth test, any other a chain of equalities."""
+        if i == len(comps):
+            return [(st, rows[0][1] if rows else None)]
+        if not rows:
+            return [(st, None)]
+        c = comps[i]
+        vals = []
+        for r in rows:
+            if r[0][i] not in vals:
+                vals.append(r[0][i])
+        out = []
+        if is_const(c):
+            return self.lookup_rows([r for r in rows if r[0][i] == c[1]
+                                     and type(r[0][i]) is type(c[1])],
+                                    comps, i + 1, st, node)
+        if is_boolean(c) and all(isinstance(v, bool) for v in vals):
+            for s2, tr in self.split(c, st, node):
+                out.extend(self.lookup_rows(
+                    [r for r in rows if r[0][i] is tr], comps, i + 1, s2,
+                    node))
+            return out
+        cur = st
+        for v in vals:
+            a, pol = self.atom(op('==', c, const(v)))
+            d = self.decide(a, cur)
+            sub = [r for r in rows if r[0][i] == v]
+            if d is not None:
+                if d == pol:
+                    return out + self.lookup_rows(sub, comps, i + 1, cur,
+                                                  node)
+                continue
+            hit = cur.fork()
+            hit.conds.append((a, pol, node))
+            hit.cond_held.append(tuple(hit.held))
+            out.extend(self.lookup_rows(sub, comps, i + 1, hit, node))
+            cur.conds.append((a, not pol, node))
+            cur.cond_held.append(tuple(cur.held))
+        out.append((cur, None))
+        return out
 
     def lookup(self, table, k, st, node):
         """[(state, value or None)]: the entry of a literal table selected
@@ -1456,6 +1511,12 @@ class PathSum(object):
         if/elif chain on k would produce); None = no entry."""
         out = []
         cur = st
+        if k[0] == 'tuple' and all(
+                _const_tuple(key) is not None and len(_const_tuple(key)) ==
+                len(k[1]) for key, _ in table[1]):
+            return self.lookup_rows([(_const_tuple(key), val)
+                                     for key, val in table[1]],
+                                    list(k[1]), 0, st, node)
         for key, val in table[1]:
             a, pol = self.atom(op('==', k, key))
             d = self.decide(a, cur)
@@ -1650,6 +1711,46 @@ class PathSum(object):
             if v is not None and is_const(v) and isinstance(
                     v[1], (int, float)):
                 return const(-v[1])
+            return None
+        if isinstance(e, ast.Call) and isinstance(e.func, ast.Name) and \
+                e.func.id in ('dict', 'tuple', 'list', 'frozenset', 'set') \
+                and module is not None and not any(
+                    k.arg is None for k in e.keywords) and not any(
+                        isinstance(a, ast.Starred) for a in e.args):
+            try:
+                shadow = self.db.resolve_dotted(module, e.func)
+            except AnalysisError:
+                shadow = True
+            if shadow is not None:
+                return None
+            args = [self._literal(a, module, depth + 1) for a in e.args]
+            kws = [(const(k.arg), self._literal(k.value, module, depth + 1))
+                   for k in e.keywords]
+            if any(a is None for a in args) or any(
+                    v is None for _, v in kws):
+                return None
+            if e.func.id == 'dict':
+                pairs = []
+                if len(args) > 1:
+                    return None
+                if args:
+                    a = args[0]
+                    if a[0] == 'dict':
+                        pairs = list(a[1])
+                    elif a[0] in ('tuple', 'list') and all(
+                            x[0] in ('tuple', 'list') and len(x[1]) == 2
+                            for x in a[1]):
+                        pairs = [(x[1][0], x[1][1]) for x in a[1]]
+                    else:
+                        return None
+                for k, v in kws:
+                    pairs = [(a, b) for a, b in pairs if a != k] + [(k, v)]
+                return ('dict', tuple(pairs))
+            if len(args) == 1 and not kws and args[0][0] in (
+                    'tuple', 'list', 'set'):
+                kind = {'tuple': 'tuple', 'list': 'list', 'set': 'set',
+                        'frozenset': 'set'}[e.func.id]
+                return (kind, args[0][1])
             return None
         if isinstance(e, (ast.Name, ast.Attribute)) and module is not None:
             try:
